@@ -1,6 +1,7 @@
 package engine
 
 import (
+	"bytes"
 	"encoding/json"
 	"io"
 	"strings"
@@ -175,6 +176,20 @@ func (s *socket) onOpen() {
 	)
 
 	if i := s.server.Opts().InitialPacket(); i != nil {
+		// Every session reads its own copy: sending the configured reader
+		// itself drains it, and every later session got an empty message.
+		switch v := i.(type) {
+		case types.BufferInterface:
+			i = v.Clone()
+		case *strings.Reader:
+			r := *v
+			r.Seek(0, io.SeekStart)
+			i = &r
+		case *bytes.Reader:
+			r := *v
+			r.Seek(0, io.SeekStart)
+			i = &r
+		}
 		s.sendPacket(packet.MESSAGE, i, nil, nil)
 	}
 
